@@ -9,10 +9,11 @@ EXPLANATION = (
     "Static decision of the kill-switch mechanism: the event array given to epoll.wait has "
     "MAX_CONNECTIONS + 2 entries (listener, kill switch and every connection fit in one batch; constants "
     "evaluated); in the event loop the comparison e.fd() == kill_fd is the first use of every event and its "
-    "true edge returns Err(ShutdownEvent) with no call in between; kill_fd is the kill switch's "
+    "true edge returns Err(ShutdownEvent) with no call in between, and every event of the batch is looked at (an iteration ends at "
+    "the next event or with an error, never by leaving the loop with Ok); kill_fd is the kill switch's "
     "as_raw_fd() or -1; nothing in the crate reads (and thereby resets) the eventfd; add_kill_switch "
     "registers the descriptor with epoll_add and stores it; the kill_switch field is read only by requests(). "
-    "The error exits of requests() before the test are environment-only, the Overflow exit being out of reach while the in-flight counter is at least 32 bits wide. "
+    "The error exits of requests() before the test are environment-only (the failure of the 503 write to a refused client is not among them), the Overflow exit being out of reach while the in-flight counter is at least 32 bits wide. "
     "Decides these clauses; that the kernel reports the eventfd in every batch is trusted."
 )
 TRUSTED = ["level-triggered epoll keeps reporting a readable eventfd", "Epoll::wait fills at most events.len() entries"]
@@ -116,6 +117,19 @@ def branch(ctx):
                     after.append(evn[3])
             ctx.ob("R18.2", "kill|returns-shutdown-at-once", e is not None and e[0] == "agg" and e[2] == "ShutdownEvent" and not after, "kill event: Err(ShutdownEvent) with no call in between (calls after: %s)" % after, fn.loc(lf.bb))
     ctx.ob("R18.2", "floor", n_iter >= 10 and n_kill >= 1, "%d loop-iteration paths, %d kill path(s) (floors 10, 1)" % (n_iter, n_kill), fn.loc(0))
+    # ... and every event of the batch is looked at: an iteration ends by going on to the next event or by failing; a path
+    # that leaves the loop from inside an iteration and still returns Ok (a `break` on a per-call budget) stops before the
+    # events behind it, the kill switch's among them
+    n_it = 0
+    for lf in lv:
+        if srv.event_term(lf) is None:
+            continue
+        n_it += 1
+        rk = ret_kind(lf)
+        left = lf.kind == "return" and rk is not None and rk[0] == "Ok"
+        if left:
+            ctx.fail("R18.2", "every-event-visited|bb%d" % lf.bb, "requests() has a path that handles an event, leaves the event loop and returns Ok: the events behind it in the batch (the kill switch's, possibly) are not looked at in this call", fn.loc(lf.bb))
+    ctx.ob("R18.2", "every-event-visited", n_it >= 10, "%d iteration paths end at the next event or with an error (floor 10)" % n_it, fn.loc(0))
 
 
 def _kill_switch_field(t):
